@@ -27,6 +27,17 @@ correspondence : (a) `c15_kind`  = the name dispatch of `coarse_grid_solver` vs 
                      reach CSR as identical arrays; every stored form has the same canonical arrays); `pwRaw` / `pwStep`
                      (one step of the pairwise constructor path: strength + kernel + T + stall test) vs
                      `pyamg.aggregation.pairwise_aggregation(matchings=1)` on canonical and on messy arrays.
+                 (g) `c04y_convert` (extension E54) = the model of `lil.tocsr()` and `dia.tocsr()` (`Model/ExtC04YConv.lean`; proved:
+                     dense meaning preserved, DIA always canonical without stored zeros and its arrays a function of the meaning,
+                     LIL canonical iff its index lists are sorted) vs scipy on small integer / complex matrices: `dia_array(D)`,
+                     DIA built by hand with the offsets in random order, `L` larger / smaller than the number of columns, extra
+                     all-zero diagonals and non-zero junk in the padding, `lil_array(D)`, LIL with explicit zeros, LIL with a row
+                     listed backwards -- indptr / indices / data, dense meaning, `has_canonical_format`, stored zeros, exact; the
+                     prediction of `convert_dia_arrays_unique` is checked on the real conversions (one array triple per matrix);
+                     `c04y_pw` = `pwMRaw` / `pwMStep` (`Model/ExtC04YPairwise.lean`: the pairwise constructor path with m
+                     matchings: per matching strength + kernel + T_temp, `T @ T_temp`, `T_temp.T @ Ac @ T_temp` in csr_matmat's
+                     storage order, then the stall test) vs `pyamg.aggregation.pairwise_aggregation(matchings=m)`, m = 2 (the
+                     default of pairwise_solver), 3 and 1, on canonical and on messy arrays, n <= 12, exact.
 search         : on the real constructors and `solve`:
                  purity   -- the user's A (every format; also with tiny / subnormal / explicitly stored zero entries) and B / BH
                              are bitwise unchanged by every build (stored arrays up to the order inside a row);
@@ -93,7 +104,13 @@ META = {
                     'array-level strength / aggregation / interpolation routines are functions of the dense meaning on non-canonical '
                     'arrays -- they are not (the pairwise kernel takes the last of several equal weights in storage order: feature '
                     'canon_pw:stored-form-changes-P counts such inputs), which is why the format search compares against canonical '
-                    'CSR and leaves unsorted / stored-zero inputs to the purity check; LIL and DIA conversions are not modelled'],
+                    'CSR and leaves unsorted / stored-zero inputs to the purity check.  Extension E54: the LIL and DIA conversions are '
+                    'modelled and proved too (convert_lil, convert_dia, convert_dia_canonical, convert_lil_canonical_iff; the E27 / E41 '
+                    'statements for all seven formats: convert_all_*, hierarchy_input_independent_all), and PStepOK is discharged for the '
+                    'pairwise path with ANY number of matchings (pairwise_matchings_pstep_ok; matchings = 2 is the default of '
+                    'pairwise_solver), so pairwise_matchings_hierarchy_input_independent_all covers the default options for all seven '
+                    'input formats; both models run against scipy / pyamg here (c04y_convert, c04y_pw).  Still observed only: that '
+                    'scipy\'s lil / dia `tocsr()` and pyamg\'s strength routine + pairwise kernel compute what the models compute'],
     'partial': [],
     'assumptions': ['thresholds (strength theta, AIR theta, filter theta) are chosen off the ratios that occur in the structured test '
                     'matrices (0.27, 0.47, 0.13, 0.29, ... instead of 0.25, 0.5, 0.1, 0.3): a connection exactly at a threshold is '
@@ -1783,6 +1800,184 @@ def canon_pw_one(ctx, line, o, label, impl, D, theta, norm):
         canon_pw_formats_agree(ctx, D, theta, norm)
 
 
+# ------------------------------------------------------------------------------------------------
+# extension E54: LIL / DIA -> CSR (`c04y_convert`, Model/ExtC04YConv.lean) against scipy's tocsr(); the pairwise
+# constructor path with the default two (and three) matchings (`c04y_pw`, Model/ExtC04YPairwise.lean) against pyamg
+# ------------------------------------------------------------------------------------------------
+
+def lil_token(X):
+    r, c = X.shape
+    idx = '/'.join(sp_ints(list(X.rows[i])) for i in range(r))
+    dat = '/'.join(sp_vals(list(X.data[i]), cplx=True) for i in range(r))
+    return f'lil:{r}:{c}:{idx}:{dat}'
+
+
+def dia_token(X):
+    r, c = X.shape
+    return f'dia:{r}:{c}:{X.data.shape[1]}:{sp_ints(X.offsets)}:{sp_vals(X.data, cplx=True)}'
+
+
+def dia_by_hand(rng, D, L, extra=0, garbage=True):
+    """a DIA object for D with data.shape[1] = L (D must vanish in the columns >= L), the offsets in random order, `extra`
+    all-zero diagonals, and random non-zero numbers in the padding (positions whose row or column lies outside the matrix)"""
+    n, m = D.shape
+    offs = sorted({int(j) - int(i) for i, j in zip(*np.nonzero(D))})
+    spare = [o for o in range(-(n - 1), max(m, L)) if o not in offs]
+    for _ in range(extra):
+        if spare:
+            offs.append(int(spare.pop(int(rng.integers(0, len(spare))))))
+    offs = [offs[k] for k in rng.permutation(len(offs))]
+    data = np.zeros((len(offs), L), dtype=D.dtype)
+    for k, o in enumerate(offs):
+        for j in range(L):
+            i = j - o
+            if 0 <= i < n and j < m:
+                data[k, j] = D[i, j]
+            elif garbage:
+                data[k, j] = float(rng.integers(1, 9))
+    return sp.dia_array((data, np.asarray(offs, dtype=np.int32)), shape=D.shape)
+
+
+def convx_inputs(rng, D):
+    """(name, group, object): every object represents D; group 'dia' = the uniqueness theorem predicts identical CSR arrays"""
+    n, m = D.shape
+    out = [('dia', 'dia', sp.dia_array(D))]
+    used = int(np.max(np.nonzero(D)[1])) + 1 if D.any() else 1
+    out.append(('dia_padded', 'dia', dia_by_hand(rng, D, m + int(rng.integers(0, 3)), extra=int(rng.integers(0, 3)))))
+    out.append(('dia_short', 'dia', dia_by_hand(rng, D, max(used, 1), extra=int(rng.integers(0, 2)))))
+    X = sp.lil_array(D)
+    out.append(('lil', None, X))
+    Z = sp.lil_array(D)                                   # explicit zeros, index lists kept sorted
+    for i in range(n):
+        for j in range(m):
+            if D[i, j] == 0 and rng.random() < 0.25:
+                k = int(np.searchsorted(Z.rows[i], j))
+                Z.rows[i].insert(k, j)
+                Z.data[i].insert(k, 0.0 * D[0, 0])
+    out.append(('lil_zeros', None, Z))
+    U = sp.lil_array(D)                                   # SciPy's invariant broken by hand: a row listed backwards
+    for i in range(n):
+        if len(U.rows[i]) >= 2 and rng.random() < 0.6:
+            U.rows[i] = U.rows[i][::-1]
+            U.data[i] = U.data[i][::-1]
+    out.append(('lil_unsorted', None, U))
+    return out
+
+
+def part_convert_x(ctx, rng, count, q):
+    for t in range(count):
+        n = int(rng.integers(1, 8))
+        m = n if rng.random() < 0.6 else int(rng.integers(1, 8))
+        if rng.random() < 0.5:
+            D = (rng.integers(-4, 5, size=(n, m)) * (rng.random((n, m)) < 0.4)).astype(float)
+        else:                                             # banded: what DIA is made for
+            D = np.zeros((n, m))
+            for o in rng.integers(-(n - 1), m, size=int(rng.integers(1, 4))):
+                for i in range(n):
+                    if 0 <= i + o < m and rng.random() < 0.8:
+                        D[i, i + o] = float(rng.integers(-4, 5))
+        if rng.random() < 0.25:
+            D = D + 1j * (rng.integers(-2, 3, size=(n, m)) * (D != 0))
+        group = []
+        for name, grp, X in convx_inputs(rng, D):
+            C0 = X.tocsr()
+            conv = csr_text(C0)
+            fresh = sp.csr_array((C0.data.copy(), C0.indices.copy(), C0.indptr.copy()), shape=C0.shape)
+            canonical = '1' if fresh.has_canonical_format else '0'
+            nozero = '1' if not (C0.data[:int(C0.indptr[-1])] == 0).any() else '0'
+            impl = ';'.join([conv, sp_vals(C0.toarray(), cplx=True), canonical, nozero])
+            same = bool((C0.toarray() == D).all())
+            if grp == 'dia':
+                group.append(conv)
+            tok = dia_token(X) if X.format == 'dia' else lil_token(X)
+            rep = None if same else {'kind': 'convert_x', 'summary': f'{name} {D.shape}', 'packed': pack({'format': name, 'D': D, 'token': tok})}
+            q.add('c04y_convert ' + tok,
+                  lambda line, o, name=name, impl=impl, rep=rep, shape=D.shape: convert_x_one(ctx, line, o, name, impl, rep, shape))
+        # diaToCsr_unique on the real conversions: every DIA layout of one matrix reaches CSR as the same arrays
+        ctx.feat('convert_x:group:dia')
+        if len(set(group)) > 1:
+            ctx.corr('c04y_convert dia-arrays-unique', {'D': pack(D)}, 'identical arrays', sorted(set(group))[:2])
+
+
+def convert_x_one(ctx, line, o, name, impl, rep, shape):
+    ctx.case(key=_key('convert_x', name, shape), nontrivial=shape[0] >= 2)
+    ctx.feat('convert_x:' + name)
+    if o != impl:
+        ctx.corr('c04y_convert', {'line': line[:600], 'format': name}, o[:600], impl[:600])
+        if rep is not None:
+            ctx.violation(f'scipy conversion of a {name} input to CSR changed the represented matrix', rep)
+        return
+    fl = o.split(';')
+    ctx.feat('convert_x:canonical' if fl[2] == '1' else 'convert_x:not-canonical:' + name)
+
+
+def real_pairwise_step_m(A, theta, norm, m):
+    """pairwise._extend_hierarchy for the level matrix A with `matchings = m`: the text of P, 'none' when it stalls"""
+    from pyamg.aggregation.aggregate import pairwise_aggregation
+    with warnings.catch_warnings():
+        warnings.simplefilter('ignore')
+        P = pairwise_aggregation(A, matchings=m, theta=theta, norm=norm, compute_P=True)[0]
+    if P.shape[1] >= P.shape[0]:
+        return 'none'
+    return csr_text(sp.csr_array(P), cplx=False)
+
+
+def pw_m_formats_agree(ctx, D, theta, norm, m):
+    """the property behind it: the same P for the formats whose conversion is canonical"""
+    ref = real_pairwise_step_m(gen.int32csr(sp.csr_array(D)), theta, norm, m)
+    for fmt in ('csc', 'coo', 'dense', 'lil', 'dia'):
+        X = make_input(D, fmt, shuffle_seed=7)
+        got = real_pairwise_step_m(gen.int32csr(sp.csr_array(X)), theta, norm, m)
+        if got != ref:
+            ctx.violation(f'pairwise aggregation step (matchings={m}): P from {fmt} input differs from P from canonical CSR input',
+                          {'kind': 'canon_pw_m', 'summary': f'{fmt} n={D.shape[0]} theta={theta} norm={norm} matchings={m}',
+                           'packed': pack({'D': D, 'theta': theta, 'norm': norm, 'format': fmt, 'm': m})})
+            return False
+    return True
+
+
+def part_pw_matchings(ctx, rng, count, q):
+    tiny = _fr(float(np.finfo(np.float64).tiny))
+    for t in range(count):
+        n = int(rng.integers(1, 13))
+        off = -(rng.integers(0, 5, size=(n, n)) * (rng.random((n, n)) < 0.4)).astype(float)
+        if rng.random() < 0.3:
+            off = off + (rng.integers(0, 3, size=(n, n)) * (rng.random((n, n)) < 0.15))
+        if rng.random() < 0.6:
+            off = np.minimum(off, off.T)
+        np.fill_diagonal(off, 0.0)
+        dg = rng.integers(1, 9, size=n).astype(float)
+        if rng.random() < 0.15:
+            dg[int(rng.integers(0, n))] = 0.0
+        D = off + np.diag(dg)
+        theta = float(pick(rng, [0.0, 0.25, 0.25, 0.5, 1.0]))
+        norm = str(pick(rng, ['min', 'min', 'abs']))
+        m = int(pick(rng, [2, 2, 2, 3, 1]))
+        zmask = (rng.random((n, n)) < 0.2) & (D == 0)
+        A_can = gen.int32csr(sp.csr_array(D))
+        A_messy = sp.csr_array(messy_arrays(rng, D, zmask), shape=D.shape)
+        for label, A in (('canonical', A_can), ('messy', A_messy)):
+            Ac = A.copy()
+            Ac.sum_duplicates()
+            Ac.eliminate_zeros()
+            impl = real_pairwise_step_m(A.copy(), theta, norm, m) + ';' + real_pairwise_step_m(Ac, theta, norm, m)
+            line = f'c04y_pw {m} {norm} {_fr(theta)} {tiny} ' + csr_text(A, cplx=False)
+            q.add(line, lambda line, o, label=label, impl=impl, D=D, theta=theta, norm=norm, m=m:
+                  pw_m_one(ctx, line, o, label, impl, D, theta, norm, m))
+
+
+def pw_m_one(ctx, line, o, label, impl, D, theta, norm, m):
+    n = D.shape[0]
+    ctx.case(key=_key('pw_m', label, norm, theta, n, m), nontrivial=n >= 2)
+    ctx.feat(f'pw_m:{m}:' + label)
+    ctx.feat(f'pw_m:{m}:' + ('stall' if impl.endswith(';none') else 'coarsened'))
+    if label == 'messy' and impl.split(';')[0] != impl.split(';')[1]:
+        ctx.feat('pw_m:stored-form-changes-P')
+    if o != impl:
+        ctx.corr('c04y_pw', {'line': line[:900], 'stored': label, 'matchings': m}, o[:400], impl[:400])
+        pw_m_formats_agree(ctx, D, theta, norm, m)
+
+
 def part_kind(ctx, q):
     names = [nm for nm in ALL_NAMES if nm and ' ' not in nm]
     A = gen.int32csr(sp.csr_array(np.array([[2.0, -1.0], [-1.0, 2.0]])))
@@ -2093,6 +2288,9 @@ def run(ctx):
     e41 = np.random.default_rng([int(getattr(ctx, 'round_seed', ctx.seed)) % (2 ** 32), 41])   # neither ctx.rng nor ctx.np_rng
     part_canon(ctx, e41, ctx.scale(40, 600), q)
     part_canon_pw(ctx, e41, ctx.scale(60, 1500), q)
+    e54 = np.random.default_rng([int(getattr(ctx, 'round_seed', ctx.seed)) % (2 ** 32), 54])   # own stream
+    part_convert_x(ctx, e54, ctx.scale(40, 600), q)
+    part_pw_matchings(ctx, e54, ctx.scale(60, 1500), q)
     build_stream(ctx, rng, ctx.scale(200, 7000), q)
     pair_core(ctx, np.random.default_rng(ctx.rng.getrandbits(31)))
     reuse_stream(ctx, rng, ctx.scale(450, 16000))
@@ -2135,6 +2333,13 @@ def replay(ctx, data):
             ctx.violation('scipy sum_duplicates / eliminate_zeros changed the represented matrix', case)
     elif case['kind'] == 'canon_pw':
         canon_pw_formats_agree(ctx, np.asarray(p['D']), p['theta'], p['norm'])
+    elif case['kind'] == 'canon_pw_m':
+        pw_m_formats_agree(ctx, np.asarray(p['D']), p['theta'], p['norm'], int(p['m']))
+    elif case['kind'] == 'convert_x':
+        q = LeanQueue()
+        for name, grp, X in convx_inputs(np.random.default_rng(0), np.asarray(p['D'])):
+            if not (X.tocsr().toarray() == np.asarray(p['D'])).all():
+                ctx.violation(f'scipy conversion of a {name} input to CSR changed the represented matrix', case)
     elif case['kind'] == 'cache':
         from pyamg.multilevel import coarse_grid_solver
         mats = {int(k): gen.int32csr(sp.csr_array(np.array(v))) for k, v in p['mats'].items()}
